@@ -447,6 +447,21 @@ pub fn shape_sweep(rep: &mut Report, thorough: bool) {
         docs.push(json!({"#": h, "f♭": [{"_id": "x", "p": 1}]}));
         docs.push(json!({"a": {"#": h, "p": 1}, "f♭": [{"_id": "x", "p": {"#": h}}]}));
     }
+    // the other names the storage format uses internally, as user keys and values of tracked objects and of the root
+    for k in ["_deleted", "_resolved", "A", "a", "p", "c", "o", "i", "k", "e", "d", "r", "√", "^", "!", "♭", "@"] {
+        for val in [json!(true), json!(["y"]), json!([["i", 0, ["z"]]]), json!("d"), json!({"A": ["q"]})] {
+            let mut o = serde_json::Map::new();
+            o.insert("_id".into(), json!("x"));
+            o.insert(k.to_string(), val.clone());
+            docs.push(json!({"f♭": [Value::Object(o.clone())]}));
+            o.insert("p".into(), json!(1));
+            docs.push(json!({"f♭": Value::Object(o.clone())}));
+            let mut root = serde_json::Map::new();
+            root.insert(k.to_string(), val.clone());
+            root.insert("f♭".into(), json!([{"_id": "x", "p": 1}]));
+            docs.push(Value::Object(root));
+        }
+    }
     let evals = std::sync::atomic::AtomicU64::new(0);
     let classes: std::sync::Mutex<BTreeMap<String, u64>> = std::sync::Mutex::new(BTreeMap::new());
     let bad: std::sync::Mutex<Vec<(usize, String, Value)>> = std::sync::Mutex::new(vec![]);
